@@ -42,6 +42,12 @@ func c10Strata() []stratum {
 		}), 3},
 		{"general", with(func(c *gen.LCfg) { c.PAbsent = 3 }), 2},
 		{"sparse-sheet", with(func(c *gen.LCfg) { c.PAbsent = 50; c.POriginVar = 30 }), 2},
+		{"biglits", with(func(c *gen.LCfg) {
+			c.Accounts = []string{"a", "b"}
+			c.Assets = []string{"USD"}
+			c.PBig, c.PVarAmt, c.PDstSeq, c.PSrcSeq, c.PWorld, c.PAbsent = 70, 8, 60, 40, 25, 3
+			c.MaxStmts, c.Depth = 3, 2
+		}), 2},
 	}
 }
 
@@ -108,8 +114,8 @@ func runC10(c *fw.Ctx) {
 		}
 		r := c.Rng(id)
 		cs := genCase(r, st.cfg)
-		if r.Chance(1, 3) {
-			if addMetaOrigin(cs, r.Intn(8)) {
+		for m := r.Intn(6) - 2; m > 0; m-- { // 0..3 metadata-backed variables
+			if addMetaOrigin(cs, r.Intn(9)) {
 				cs.Tags["meta-origin"] = true
 			}
 		}
